@@ -34,6 +34,7 @@ import (
 // time never influences the main leg; expiry after failover is the synctest leg.
 
 const c15FindTimeouts = "C15-inmem-store-loses-session-timeout"
+const c15FindJoined = "C15-restore-marks-all-joined"
 
 const c15Group = "grp"
 
@@ -402,10 +403,11 @@ type c15Outcome struct {
 	failMembers int
 	hasAssign   bool
 	harnessErr  string
+	excluded    []string
 }
 
 // c15Run plays the history on A, fails over, probes A and B.
-func c15Run(sc c15Script) c15Outcome {
+func c15Run(sc c15Script, tolerateJoined bool) c15Outcome {
 	var out c15Outcome
 	ctx := context.Background()
 	cfg := &CoordinatorConfig{CleanupInterval: time.Hour}
@@ -570,16 +572,24 @@ func c15Run(sc c15Script) c15Outcome {
 		}
 		return s
 	}
-	// compareJoin returns (continue, stop): while the group is preparing a rebalance the set of
-	// members that already rejoined is not part of the statement (it is not persisted), so
-	// there only generation/leader/member id are compared and B may complete the rebalance
-	// earlier than A; once that happened the comparison stops.
+	// compareJoin reports whether the comparison can go on. Which members already rejoined
+	// during a PreparingRebalance is not persisted. B must not complete that rebalance before
+	// A does (it would hand out a generation some member never joined: listed finding
+	// C15-restore-marks-all-joined, tolerated only while listed). The opposite - B waits for
+	// members that A already counted - is a legitimate conservative restore: statistic, and
+	// the comparison stops there.
 	compareJoin := func(what string, ra, rb *kmsg.JoinGroupResponse) bool {
-		if ra.ErrorCode == protocol.REBALANCE_IN_PROGRESS && rb.ErrorCode == protocol.NONE {
-			out.classes = append(out.classes, "stat:rejoin-progress-not-persisted(B completes rebalance earlier)")
+		if tolerateJoined && out.failState == groupStatePreparingStr && ra.ErrorCode == protocol.REBALANCE_IN_PROGRESS && rb.ErrorCode == protocol.NONE {
+			// listed finding: a group restored in PreparingRebalance treats every member as
+			// already rejoined, so B completes the rebalance on the first join while A waits
+			out.excluded = append(out.excluded, c15FindJoined)
 			if renderJoin(a, ra, false) != renderJoin(b, rb, false) {
 				out.violation = fmt.Sprintf("%s: %s\n  A: %s\n  B: %s", where(), what, renderJoin(a, ra, false), renderJoin(b, rb, false))
 			}
+			return false
+		}
+		if out.failState == groupStatePreparingStr && ra.ErrorCode == protocol.NONE && rb.ErrorCode == protocol.REBALANCE_IN_PROGRESS && renderJoin(a, ra, false) == renderJoin(b, rb, false) {
+			out.classes = append(out.classes, "stat:restored-coordinator-waits-for-members-to-rejoin")
 			return false
 		}
 		if renderJoin(a, ra, true) != renderJoin(b, rb, true) {
@@ -793,7 +803,7 @@ func TestVF_C15_Failover(t *testing.T) {
 	rapid.Check(t, func(t *rapid.T) {
 		st.Eval()
 		sc := c15Generate(t)
-		out := c15Run(sc)
+		out := c15Run(sc, vfkit.Known(c15FindJoined))
 		if out.harnessErr != "" {
 			t.Fatalf("harness: %s", out.harnessErr)
 		}
@@ -802,6 +812,9 @@ func TestVF_C15_Failover(t *testing.T) {
 		st.Class("first-request-" + sc.Probe[0])
 		for _, c := range out.classes {
 			st.Class(c)
+		}
+		for _, id := range out.excluded {
+			st.ExcludedCase(id)
 		}
 		midRebalance := out.failState == groupStatePreparingStr || out.failState == groupStateCompletingStr
 		if (out.failState == groupStateStableStr && out.hasAssign) || (midRebalance && out.failMembers >= 2) {
@@ -968,4 +981,22 @@ func TestVF_C15_Witness(t *testing.T) {
 	st.NonTrivial("witness", c)
 	st.Sample(map[string]any{"witness": c15FindTimeouts, "case": c, "violation": viol})
 	t.Logf("witness: %s", viol)
+
+	// two members stable, a third joins (PreparingRebalance), failover, first member rejoins:
+	// A waits for the second member, B answers NONE
+	st.Eval()
+	sc := c15Script{Store: "codec", Probe: []string{"heartbeat", "sync", "commit"}, Topics: map[string]int32{"t1": 2}, Ops: []c15Op{
+		{Kind: "join", Client: 0, Subs: []string{"t1"}, SessionMs: 30000, RebalMs: 30000},
+		{Kind: "join", Client: 1, Subs: []string{"t1"}, SessionMs: 30000, RebalMs: 30000},
+		{Kind: "settle", RebalMs: 30000},
+		{Kind: "join", Client: 2, Subs: []string{"t1"}, SessionMs: 30000, RebalMs: 30000},
+	}}
+	out := c15Run(sc, false)
+	if out.harnessErr != "" {
+		t.Fatalf("harness: %s", out.harnessErr)
+	}
+	st.KnownResult(c15FindJoined, out.violation != "", out.violation)
+	st.NonTrivial("witness", c15FindJoined)
+	st.Sample(map[string]any{"witness": c15FindJoined, "script": sc, "violation": out.violation})
+	t.Logf("witness %s (failover in %s): %s", c15FindJoined, out.failState, out.violation)
 }
